@@ -26,7 +26,7 @@ MANIFEST = {
 
 TX_KINDS = ['valid', 'valid', 'valid', 'conflict', 'duplicate', 'resigned', 'already_mined', 'other_fork',
             'no_outputs', 'out_zero', 'overspend', 'dup_ref', 'null_ref', 'placeholder', 'wrong_key', 'missing',
-            'coinbasedata_sig', 'over_max']
+            'coinbasedata_sig', 'over_max', 'seen_before_bad_sig', 'seen_before_bad_sig']
 
 
 def generate(seed, tier):
@@ -77,6 +77,7 @@ def execute(script):
         if sim.dead or node.loop_error:
             return res
         ref_pool = []            # RefPool: transactions the reference expects in the pool (by id)
+        once_pooled = []         # every transaction that was admitted at some time in this run
         submitted = {}           # id -> (tx, kind)
 
         def head():
@@ -167,6 +168,33 @@ def execute(script):
                         if ref not in hb.utxo and W.key_by_pub(pub) is not None:
                             return W.make_tx([ref], [(v, W.key(a % 12))], [W.key_by_pub(pub)])
                 return None
+            if kind == 'seen_before_bad_sig':
+                # a transaction the node has verified before in this run (it was pooled, or is in a block of any branch) whose
+                # inputs are unspent at the head again: the same content with a signature that does not verify
+                known = []
+                for bid in sim.stored:
+                    blk = sim.block_objs.get(bid)
+                    if blk is not None:
+                        known.extend(blk.transactions[1:])
+                known.extend(once_pooled)
+                pool_refs = set().union(*[refs_of(t) for t in ref_pool]) if ref_pool else set()
+                cands = [t for t in known if t.inputs and all(r in hb.utxo for r in refs_of(t)) and not (refs_of(t) & pool_refs)]
+                if not cands:
+                    return None
+                t = cands[a % len(cands)]
+                res.bump('probe:verified_transaction_spendable_again')
+                i0 = t.inputs[0]
+                if a % 3 == 0:
+                    sig = SECP256k1Signature(bytes([(a * 7 + j) % 251 + 1 for j in range(64)]))
+                elif a % 3 == 1:
+                    other = W.key((a % 11) + 1)
+                    if other.pub == hb.utxo[(i0.output_reference.hash, i0.output_reference.index)][1]:
+                        other = W.key(0)
+                    sig = SECP256k1Signature(other.sign(rules.blank_message(t)))
+                else:
+                    k_ = W.key_by_pub(hb.utxo[(i0.output_reference.hash, i0.output_reference.index)][1])
+                    sig = SECP256k1Signature(k_.sign(b'another message' + bytes([a % 256])))
+                return Transaction([Input(i0.output_reference, sig)] + list(t.inputs[1:]), list(t.outputs))
             if base_tx is None:
                 return None
             ins, outs = list(base_tx.inputs), list(base_tx.outputs)
@@ -229,6 +257,7 @@ def execute(script):
                     return False
                 if admitted:
                     ref_pool.append(tx)
+                    once_pooled.append(tx)
                     known.add(tid)
                     res.bump('admitted')
                     res.distinct.add('admit:%s:pool%d' % (kind, min(len(ref_pool), 4)))
